@@ -19,26 +19,15 @@ open StrictTotal Arith
 section
 variable {ν ε : Type} (A : Alg ν ε)
 
-/-- **Operator table (partial).** For every operator × operand-kind combination in
-    `binSupported` (at least one operand a box or an element), the expression evaluates to a box
-    holding the result of the same operator on the underlying values — or raises exactly what the
-    value operator raises.  The combinations outside `binSupported` are the gap, see
-    `box_op_unsupported_raises`. -/
-theorem box_op_table_partial (op : BinOp) (ka kb : Kind) (x y : ν)
-    (hk : ¬ (ka = .S ∧ kb = .S)) (h : binSupported op ka kb = true) :
+/-- **Operator table.** For every documented operator (`+ - * / // << & |`) and every
+    operand-kind combination with at least one box or element (box-box, box-scalar, scalar-box,
+    and an element on either side), the expression evaluates to a box holding the result of the
+    same operator on the underlying values — or raises exactly what the value operator raises. -/
+theorem box_op_table (op : BinOp) (ka kb : Kind) (x y : ν) (hk : ¬ (ka = .S ∧ kb = .S)) :
     pyBin A op ka kb x y = binSpec A op x y := by
-  cases op <;> cases ka <;> cases kb <;>
-    simp_all [binSupported, pyBin, binSpec, opPS, opSP, opPP, opES, opSE, opEE, opEP, opPE,
+  cases ka <;> cases kb <;>
+    simp_all [pyBin, binSpec, opPS, opSP, opPP, opES, opSE, opEE, opEP, opPE,
       Kind.hasOp, Kind.hasROp, Res.rebox_rebox]
-
-/-- The gap of `box_op_table_partial` is exact: every other combination raises TypeError today
-    (`//` everywhere; `/` and `<< & |` with a scalar on the left or an element on either side). -/
-theorem box_op_unsupported_raises (op : BinOp) (ka kb : Kind) (x y : ν)
-    (hk : ¬ (ka = .S ∧ kb = .S)) (h : binSupported op ka kb = false) :
-    pyBin A op ka kb x y = .typeError := by
-  cases op <;> cases ka <;> cases kb <;>
-    simp_all [binSupported, pyBin, opPS, opSP, opPP, opES, opSE, opEE, opEP, opPE,
-      Kind.hasOp, Kind.hasROp, Res.rebox]
 
 /-- **Comparison table (full).** All six comparisons, all operand-kind combinations: the result
     is the comparison of the underlying values, given the one law of the value order that
@@ -48,34 +37,20 @@ theorem box_cmp_table (hsw : ∀ c x y, A.cmp c.swap y x = A.cmp c x y)
   cases ka <;> cases kb <;>
     simp [pyCmp, cmpSS, cmpPS, cmpSP, cmpPP, cmpES, cmpSE, cmpEE, cmpEP, cmpPE, hsw]
 
-/-- **In-place forms (partial).** For the combinations in `iopSupported` (`+= -= *=` on a box or
-    an element with any right operand; `<<=` on a box from a box or scalar and on an element
-    from anything) the statement leaves
-    the name bound to the same object whose box now holds the operator's result (`<<=`: the new
-    value), or raises what the value operator raises and changes nothing. -/
-theorem inplace_same_ref_partial (i : IOp) (ka kb : Kind) (x y : ν)
-    (h : iopSupported i ka kb = true) : pyIop A i ka kb x y = iopSpec A i x y := by
+/-- **In-place forms.** `+= -= *= /= <<=` on a box or on an element, with a scalar, a box or an
+    element on the right: the statement leaves the name bound to the same object, whose box now
+    holds the operator's result (`<<=`: the new value) — or raises what the value operator
+    raises and changes nothing. -/
+theorem inplace_same_ref (i : IOp) (ka kb : Kind) (x y : ν) (hka : ka ≠ .S) :
+    pyIop A i ka kb x y = iopSpec A i x y := by
   cases i <;> cases ka <;> cases kb <;>
-    simp_all [iopSupported, pyIop, iopP, iopE, iopSpec, IOp.bin, opSS, opSE, opSP,
-      Kind.hasOp, Kind.hasROp] <;>
+    simp_all [pyIop, iopP, iopE, iopSpec, IOp.bin, opSS, opSE, opSP, Kind.hasOp, Kind.hasROp] <;>
     (split <;> simp_all [Res.rebox, Res.store])
 
-/-- `<<=` replaces the value and keeps the object: on a box from a box or a scalar, on an
-    element from a scalar, a box or an element. -/
-theorem ilshift_replaces_partial (ka kb : Kind) (x y : ν) (hka : ka ≠ .S)
-    (h : ¬ (ka = .P ∧ kb = .E)) :
+/-- `<<=` replaces the value and keeps the object, whatever the kinds of the two operands. -/
+theorem ilshift_replaces (ka kb : Kind) (x y : ν) (hka : ka ≠ .S) :
     pyIop A .ishl ka kb x y = .done .same (.val y) := by
   cases ka <;> cases kb <;> simp_all [pyIop, iopP, iopE]
-
-/-- Today's `Payload.__ilshift__` given an element stores the element object, not its value. -/
-theorem today_box_ilshift_from_elem (x y : ν) :
-    pyIop A .ishl .P .E x y = .done .same .elemObj := by
-  simp [pyIop, iopP]
-
-/-- Today `/=` on an element raises TypeError (the class only has the Python 2 name `__idiv__`). -/
-theorem today_elem_idiv_raises (kb : Kind) (x y : ν) : pyIop A .idiv .E kb x y = .typeError := by
-  cases kb <;>
-    simp [pyIop, iopE, pyBin, opES, opEE, opEP, Kind.hasOp, Kind.hasROp, Res.rebox, Res.fallback]
 
 end
 
@@ -102,19 +77,19 @@ theorem intAlg_swap : ∀ c x y, intAlg.cmp (CmpOp.swap c) y x = intAlg.cmp c x 
   cases c <;> simp [intAlg, CmpOp.swap, eq_comm]
 
 example : pyBin intAlg .sub .S .E 12 5 = .boxed 7 :=
-  box_op_table_partial intAlg .sub .S .E 12 5 (by decide) (by decide)
+  box_op_table intAlg .sub .S .E 12 5 (by decide)
 example : pyBin intAlg .div .P .S 12 0 = .raised "ZeroDivisionError" :=
-  box_op_table_partial intAlg .div .P .S 12 0 (by decide) (by decide)
-example : pyBin intAlg .div .S .P 12 5 = .typeError :=
-  box_op_unsupported_raises intAlg .div .S .P 12 5 (by decide) (by decide)
+  box_op_table intAlg .div .P .S 12 0 (by decide)
+example : pyBin intAlg .fdiv .S .E 12 5 = .boxed 2 :=
+  box_op_table intAlg .fdiv .S .E 12 5 (by decide)
 example : pyCmp intAlg .lt .S .E 4 5 = true := by
   rw [box_cmp_table intAlg intAlg_swap]; decide
 example : pyIop intAlg .imul .E .P 12 5 = .done .same (.val 60) :=
-  inplace_same_ref_partial intAlg .imul .E .P 12 5 (by decide)
-example : pyIop intAlg .ishl .E .S 12 5 = .done .same (.val 5) :=
-  ilshift_replaces_partial intAlg .E .S 12 5 (by decide) (by decide)
-example : pyIop intAlg .ishl .E .E 12 5 = .done .same (.val 5) :=
-  inplace_same_ref_partial intAlg .ishl .E .E 12 5 (by decide)
+  inplace_same_ref intAlg .imul .E .P 12 5 (by decide)
+example : pyIop intAlg .idiv .E .S 12 4 = .done .same (.val 3) :=
+  inplace_same_ref intAlg .idiv .E .S 12 4 (by decide)
+example : pyIop intAlg .ishl .P .E 12 5 = .done .same (.val 5) :=
+  ilshift_replaces intAlg .P .E 12 5 (by decide)
 
 end C11
 
@@ -301,20 +276,12 @@ theorem fiber_iadd_eq_add_partial [Add ν] (dflt : ν) (hr : ∀ x : ν, x + dfl
 
 /-! ### `*=` with a fiber -/
 
-/-- **In-place product = value-returning product (partial).** If every coordinate `a` presents
-    is also presented by `b` (`hcovB`, executable), `a *= b` leaves `a` with the dense view of `a * b` (any depth, any
-    default).  Without the hypothesis it does not: `today_fiber_imul_keeps_unmatched`. -/
-theorem fiber_imul_eq_mul_partial [Mul ν] (dflt : ν) (d : Nat) (a b : Tree κ ν (d + 1))
-    (ha : WF (d + 1) a) (hb : WF (d + 1) b)
-    (hcovB : (present dflt d a).all (fun e => hasCoord (present dflt d b) e.1) = true)
-    (p : List κ) :
+/-- **In-place product = value-returning product.** `a *= b` leaves `a` with the dense view
+    of `a * b` (any depth, any default): matched elements hold the product, elements only `a`
+    presents are emptied. -/
+theorem fiber_imul_eq_mul [Mul ν] (dflt : ν) (d : Nat) (a b : Tree κ ν (d + 1))
+    (ha : WF (d + 1) a) (hb : WF (d + 1) b) (p : List κ) :
     denseAt dflt (d + 1) (imulT dflt d a b) p = denseAt dflt (d + 1) (mulT dflt (d + 1) a b) p := by
-  have hcov : ∀ c, (lookup (present dflt d a) c).isSome = true →
-      (lookup (present dflt d b) c).isSome = true := by
-    intro c hc
-    obtain ⟨t, ht⟩ := Option.isSome_iff_exists.1 hc
-    have := List.all_eq_true.1 hcovB (c, t) (mem_of_lookup ht)
-    rwa [hasCoord_iff_lookup] at this
   cases p with
   | nil => rw [denseAt_nil, denseAt_nil]
   | cons c q =>
@@ -327,28 +294,50 @@ theorem fiber_imul_eq_mul_partial [Mul ν] (dflt : ν) (d : Nat) (a b : Tree κ 
       by_cases he : isEmpty dflt d x = true
       · have hx : denseAt dflt d x q = dflt := denseAt_of_isEmpty dflt d x q he
         cases lookup (present dflt d b) c <;> simp [Option.filter, he, optDense, hx]
-      · have hpa : lookup (present dflt d a) c = some x := by
-          rw [lookup_present dflt d a hsa c, hl]; simp [Option.filter, he]
-        have := hcov c (by simp [hpa])
-        obtain ⟨y, hy⟩ := Option.isSome_iff_exists.1 this
-        have hwx : WF d x := WF_of_lookup ha hl
-        have hwy : WF d y := WF_of_lookup_present hb hy
-        simp only [hy, Option.filter, he, Bool.not_false, if_true, Bool.false_eq_true, if_false,
-          optDense_some]
-        simp [optDense, denseAt_nonEmpty dflt d _ (mulT_WF dflt d x y hwx hwy) q]
+      · cases hy : lookup (present dflt d b) c with
+        | none => simp [Option.filter, he, optDense, denseAt_dfltTree]
+        | some y =>
+          have hwx : WF d x := WF_of_lookup ha hl
+          have hwy : WF d y := WF_of_lookup_present hb hy
+          simp [Option.filter, he, optDense, denseAt_nonEmpty dflt d _ (mulT_WF dflt d x y hwx hwy) q]
 
-/-- **Today's `*=` keeps what it does not match**: at a coordinate `b` does not present, `a`'s
-    element survives `a *= b` unchanged, while `a * b` has nothing there. -/
-theorem today_fiber_imul_keeps_unmatched [Mul ν] (dflt : ν) (d : Nat) (a b : Tree κ ν (d + 1))
-    (ha : WF (d + 1) a) (hb : WF (d + 1) b) (c : κ) (hnb : lookup (present dflt d b) c = none) :
-    lookup (show List (κ × Tree κ ν d) from imulT dflt d a b) c =
-      lookup (show List (κ × Tree κ ν d) from a) c ∧
-    lookup (show List (κ × Tree κ ν d) from mulT dflt (d + 1) a b) c = none := by
-  constructor
-  · rw [lookup_imulT dflt d a b ha hb c, hnb]
-    cases lookup (show List (κ × Tree κ ν d) from a) c <;> rfl
-  · rw [lookup_mulT dflt d a b ha hb c, hnb]
-    cases lookup (present dflt d a) c <;> rfl
+/-- **Fiber * scalar scales the stored elements, at any depth**: the dense view of `s * f` is
+    `s *` the operand's value wherever that is non-default, and the default elsewhere. -/
+theorem fiber_scalar_mul_spec [Mul ν] (dflt s : ν) : ∀ (d : Nat) (a : Tree κ ν (d + 1)),
+    WF (d + 1) a → ∀ p : List κ,
+    denseAt dflt (d + 1) (smulT dflt s (d + 1) a) p =
+      if denseAt dflt (d + 1) a p ≠ dflt then s * denseAt dflt (d + 1) a p else dflt := by
+  intro d
+  induction d with
+  | zero =>
+    intro a ha p
+    cases p with
+    | nil => simp [denseAt_nil]
+    | cons c q =>
+      have hsa := ((WF_succ 0 a).1 ha).1
+      have hdef : (show List (κ × Tree κ ν 0) from smulT dflt s 1 a) =
+          (present dflt 0 a).map (fun e => (e.1, smulT dflt s 0 e.2)) := by rw [smulT]
+      rw [denseAt_cons', hdef, lookup_map_val (present dflt 0 a) (fun _ v => smulT dflt s 0 v) c]
+      cases hl : lookup (present dflt 0 a) c with
+      | none => simp [denseAt_not_presented dflt 0 a hsa c q hl, optDense]
+      | some t =>
+        rw [denseAt_presented dflt 0 a hsa c q t hl]
+        exact smulT_leaf dflt s t q (ne_of_not_isEmpty_zero dflt t (not_isEmpty_of_lookup_present hl))
+  | succ d ih =>
+    intro a ha p
+    cases p with
+    | nil => simp [denseAt_nil]
+    | cons c q =>
+      have hsa := ((WF_succ (d + 1) a).1 ha).1
+      have hdef : (show List (κ × Tree κ ν (d + 1)) from smulT dflt s (d + 2) a) =
+          (present dflt (d + 1) a).map (fun e => (e.1, smulT dflt s (d + 1) e.2)) := by rw [smulT]
+      rw [denseAt_cons', hdef,
+        lookup_map_val (present dflt (d + 1) a) (fun _ v => smulT dflt s (d + 1) v) c]
+      cases hl : lookup (present dflt (d + 1) a) c with
+      | none => simp [denseAt_not_presented dflt (d + 1) a hsa c q hl, optDense]
+      | some t =>
+        rw [denseAt_presented dflt (d + 1) a hsa c q t hl]
+        exact ih t (WF_of_lookup_present ha hl) q
 
 end
 
@@ -447,6 +436,63 @@ theorem fiber_scalar_imul_eq_mul_partial [Mul ν] (dflt s : ν) (f : Fib Int ν)
   · rw [if_neg h, if_neg h]
     exact Classical.not_not.1 h
 
+/-- **Fiber + scalar adds over the whole (multi-rank) shape, at any depth**: at every point
+    inside the shape the dense view of `s + f` is `s +` the operand's dense value (stored or not),
+    outside the shape nothing is stored. -/
+theorem fiber_scalar_add_spec [Add ν] (dflt s : ν) : ∀ (d : Nat) (shp : List Nat) (a : Tree Int ν (d + 1))
+    (p : List Int), p.length = d + 1 → shp.length = d + 1 →
+    denseAt dflt (d + 1) (saddT dflt s (d + 1) shp a) p =
+      if inGridB shp p = true then s + denseAt dflt (d + 1) a p else dflt := by
+  intro d
+  induction d with
+  | zero =>
+    intro shp a p hp hs
+    match p, shp, hp, hs with
+    | [c], [n], _, _ =>
+      have hdef : (show List (Int × Tree Int ν 0) from saddT dflt s 1 [n] a) =
+          (List.range n).map (fun (i : Nat) => ((i : Int), saddT dflt s 0 []
+            ((lookup (show List (Int × Tree Int ν 0) from a) (i : Int)).getD (dfltTree dflt 0)))) := by
+        rw [saddT]; rfl
+      rw [denseAt_cons', hdef, lookup_range_map (fun i => saddT dflt s 0 []
+            ((lookup (show List (Int × Tree Int ν 0) from a) (i : Int)).getD (dfltTree dflt 0))) n c]
+      by_cases h : 0 ≤ c ∧ c < (n : Int)
+      · rw [if_pos h, optDense_some, Int.toNat_of_nonneg h.1]
+        have h1 : denseAt dflt 0 (saddT dflt s 0 []
+            ((lookup (show List (Int × Tree Int ν 0) from a) c).getD (dfltTree dflt 0))) [] =
+            s + denseAt dflt 0 ((lookup (show List (Int × Tree Int ν 0) from a) c).getD (dfltTree dflt 0)) [] :=
+          saddT_leaf dflt s [] _ []
+        rw [h1, denseAt_getD_lookup]
+        simp [inGridB, h.1, h.2]
+      · rw [if_neg h, optDense_none]
+        have : inGridB [n] [c] = false := by
+          simp only [inGridB, Bool.and_true, Bool.and_eq_false_iff, decide_eq_false_iff_not]
+          by_cases h0 : 0 ≤ c
+          · right; intro h1; exact h ⟨h0, h1⟩
+          · left; exact h0
+        simp [this]
+  | succ d ih =>
+    intro shp a p hp hs
+    match p, shp, hp, hs with
+    | c :: q, n :: ns, hp, hs =>
+      have hq : q.length = d + 1 := by simpa using hp
+      have hns : ns.length = d + 1 := by simpa using hs
+      have hdef : (show List (Int × Tree Int ν (d + 1)) from saddT dflt s (d + 2) (n :: ns) a) =
+          (List.range n).map (fun (i : Nat) => ((i : Int), saddT dflt s (d + 1) ns
+            ((lookup (show List (Int × Tree Int ν (d + 1)) from a) (i : Int)).getD (dfltTree dflt (d + 1))))) := by
+        rw [saddT]; rfl
+      rw [denseAt_cons', hdef, lookup_range_map (fun i => saddT dflt s (d + 1) ns
+            ((lookup (show List (Int × Tree Int ν (d + 1)) from a) (i : Int)).getD (dfltTree dflt (d + 1)))) n c]
+      by_cases h : 0 ≤ c ∧ c < (n : Int)
+      · rw [if_pos h, optDense_some, Int.toNat_of_nonneg h.1, ih ns _ q hq hns, denseAt_getD_lookup]
+        simp [inGridB, h.1, h.2]
+      · rw [if_neg h, optDense_none]
+        have : inGridB (n :: ns) (c :: q) = false := by
+          simp only [inGridB, Bool.and_eq_false_iff, decide_eq_false_iff_not]
+          by_cases h0 : 0 ≤ c
+          · left; right; intro h1; exact h ⟨h0, h1⟩
+          · left; left; exact h0
+        simp [this]
+
 end
 /-! ### the executable specifications used by the driver are satisfied by the model -/
 
@@ -536,15 +582,10 @@ example : ∀ p, denseAt (0 : Int) 2 (iaddT 0 2 exD exD) p =
     iaddExpect 0 (denseAt 0 2 exD p) (denseAt 0 2 exD p) := fiber_iadd_dense 0 1 exD exD exD_WF exD_WF
 example : ∀ p, denseAt (0 : Int) 1 (iaddT 0 1 exA exB) p = denseAt 0 1 (addT 0 1 exA exB) p :=
   fiber_iadd_eq_add_partial 0 (by intro x; omega) 0 exA exB exA_WF exB_WF
-/-- the coverage hypothesis of the `*=` theorem is satisfiable with a non-trivial intersection … -/
-example : ∀ p, denseAt (0 : Int) 1 (imulT 0 0 exA exC) p = denseAt 0 1 (mulT 0 1 exA exC) p :=
-  fiber_imul_eq_mul_partial 0 0 exA exC exA_WF exC_WF (by decide)
-/-- … and it fails for `exA`, `exB`: coordinate 0 of `exA` survives `exA *= exB` but is not in `exA * exB`. -/
-example : denseAt (0 : Int) 1 (imulT 0 0 exA exB) [0] = 2 ∧ denseAt (0 : Int) 1 (mulT 0 1 exA exB) [0] = 0 := by
-  have h := today_fiber_imul_keeps_unmatched (0 : Int) 0 exA exB exA_WF exB_WF 0 (by decide)
-  constructor
-  · rw [denseAt_cons', h.1]; decide
-  · rw [denseAt_cons', h.2]; rfl
+example : ∀ p, denseAt (0 : Int) 1 (imulT 0 0 exA exB) p = denseAt 0 1 (mulT 0 1 exA exB) p :=
+  fiber_imul_eq_mul 0 0 exA exB exA_WF exB_WF
+example : ∀ p, denseAt (0 : Int) 2 (imulT 0 1 exD exD) p = denseAt 0 2 (mulT 0 2 exD exD) p :=
+  fiber_imul_eq_mul 0 1 exD exD exD_WF exD_WF
 /-- default 7: `[(1,3)] += []` keeps 3 at coordinate 1, `[(1,3)] + []` gives 3 + 7 -/
 example : denseAt (7 : Int) 1 (iaddT 7 1 (leafFiber [((1 : Int), (3 : Int))]) (leafFiber [])) [1] = 3 ∧
     denseAt (7 : Int) 1 (addT 7 1 (leafFiber [((1 : Int), (3 : Int))]) (leafFiber [])) [1] = 3 + 7 := by
@@ -565,6 +606,13 @@ example : ∀ c, denseAt (0 : Int) 1 (leafFiber (isaddF 0 5 4 exA0)) [c] =
 example : ∀ c, denseAt (0 : Int) 1 (leafFiber (ismulF 0 5 exA0)) [c] =
     denseAt 0 1 (leafFiber (smulF 0 5 exA0)) [c] :=
   fiber_scalar_imul_eq_mul_partial 0 5 exA0 exA0_sorted (by intro v; exact Int.mul_comm 5 v)
+
+example : ∀ p, denseAt (0 : Int) 2 (smulT 0 5 2 exD) p =
+    if denseAt 0 2 exD p ≠ 0 then 5 * denseAt 0 2 exD p else 0 :=
+  fiber_scalar_mul_spec 0 5 1 exD exD_WF
+example : ∀ p : List Int, p.length = 2 → denseAt (0 : Int) 2 (saddT 0 5 2 [6, 5] exD) p =
+    if inGridB [6, 5] p = true then 5 + denseAt 0 2 exD p else 0 :=
+  fun p hp => fiber_scalar_add_spec 0 5 1 [6, 5] exD p hp rfl
 
 end C11
 end Ft
